@@ -354,7 +354,7 @@ def bundle_conn_path(repo: Repo, R, rule: str):
         detail = "connect call is not inside a loop over the port-side scope"
         if loop is not None and isinstance(loop.target, ast.Tuple) and len(loop.target.elts) == 2:
             kname, fpname = [ast.unparse(x) for x in loop.target.elts]
-            it = au.expand(loop.iter, env)
+            it = au.expand(loop.iter, au.local_defs(fi.node))
             m = pat.match("$S.signals.items()", it)
             same_k = ast.unparse(b["K"]) == kname
             same_fp = ast.unparse(b["FP"]) == fpname
@@ -594,8 +594,7 @@ def list_slice_index_maps(repo: Repo, R, rule: str):
     cases = []
     for c, b in pat.find("_list_slice($P[$I])", fi.node):
         conds = path_conditions(fi.node, c)
-        ctext = " and ".join(("" if pol else "not ") + ast.unparse(au.expand(t, env)) for t, pol in conds)
-        if f"isinstance({sl}.parent, Slice)" in ctext:
+        if any(pol and ast.unparse(au.expand(t, env)) == f"isinstance({sl}.parent, Slice)" for t, pol in conds):
             cases.append((c, b, conds))
     if not cases:
         raise AnalysisError(f"idiom-unknown: nested-slice base case not found in {fi.site}")
@@ -666,7 +665,11 @@ def list_slice_index_maps(repo: Repo, R, rule: str):
     upper = au.expand(rn.upper, au.local_defs(fi.node), depth=2) if rn.upper is not None else None
     n_upper_ok = False
     if upper is not None:
-        alts = _split_ifexp(upper, [])
+        if isinstance(upper, ast.Name) and len(branch_defs(fi.node, upper.id)) > 1:
+            # defined on both branches of an if/else (the canonical form of a conditional expression)
+            alts = [(au.expand(v, env), list(cds)) for v, cds in branch_defs(fi.node, upper.id)]
+        else:
+            alts = _split_ifexp(upper, [])
         vals = {ast.unparse(e) for e, _c in alts}
         n_upper_ok = vals == {f"{sl}.bot - 1", "None"} and any(au.cmp_norm(t) == au.cmp_norm(ast.parse(f"{sl}.bot > 0", mode="eval").body) and pol == (ast.unparse(e) != "None") for e, cds in alts for t, pol in cds)
     nstep = ast.unparse(au.expand(rn.step, env)) if rn.step is not None else None
@@ -786,7 +789,7 @@ def total_loops(repo: Repo, R, noret):
                     why=f"some {cont} survive the pass that is meant to remove them")
     # find_source: more than one source fails
     fi = repo.func(F_PORTREFS, "ResolvePortRefs.find_source")
-    ok = au.raises(fi.node.body, noret)
+    ok = au.raises(au.tail_default(fi.node.body), noret)
     one = any(au.cmp_norm(n.test) == ("eq", "-1 + len(sources)") or au.cmp_norm(n.test) == ("eq", "len(sources) + -1") for n in au.walk_no_nested(fi.node) if isinstance(n, ast.If))
     R.check(ok, rule, key_of(fi, "multi-source-fails"), fi.site,
             "falling through the 0/1-source cases ends in fail()" if ok else "more than one source in a group does not fail",
@@ -977,86 +980,178 @@ def ref_resolution(repo: Repo, R):
 
 
 def secondary(repo: Repo, R, noret):
+    """Secondary mechanisms of the connectivity passes.  Every clause is stated over value provenance
+    (`prov`: locals replaced by what they were computed from) and path conditions of the canonical form,
+    so that renames, temporaries, extracted helpers and re-arranged control flow do not matter."""
+    from .shared import prov, prov_text, cond_match, calls_matching, returns_of
+
     rule = "C01.15-pass-plumbing"
     # (a) ResolvePortRefs looks at every instance-like kind, and at every NoConn connection
     fe = repo.func(F_PORTREFS, "ResolvePortRefs.elaborate_module")
-    defs = au.local_defs(fe.node)
-    il = defs.get("instancelike")
-    kinds = {k for k in ("instances", "instarrays", "instbundles") if il is not None and f"module.{k}.values()" in ast.unparse(il)}
-    loop = [n for n in au.walk_no_nested(fe.node) if isinstance(n, ast.For) and ast.unparse(n.iter) == "instancelike"]
-    pr = bool(loop) and bool(pat.find("module_portrefs.add($P)", loop[0])) and any(isinstance(n, ast.For) and ast.unparse(n.iter) == "inst._refs.portrefs.values()" for n in ast.walk(loop[0]))
-    nc = bool(loop) and any(isinstance(n, ast.If) and ast.unparse(n.test) == "isinstance(conn, NoConn)" and bool(pat.find("module_portrefs.add(_get_connref(inst, portname))", n)) for n in ast.walk(loop[0]))
+    outer = [n for n in au.walk_no_nested(fe.node) if isinstance(n, ast.For) and "module.instances.values()" in prov_text(fe.node, n.iter)]
+    kinds = {k for k in ("instances", "instarrays", "instbundles") if outer and f"module.{k}.values()" in prov_text(fe.node, outer[0].iter)}
+    pr = nc = False
+    if outer:
+        iv = ast.unparse(outer[0].target)
+        for n in ast.walk(outer[0]):
+            if isinstance(n, ast.For) and ast.unparse(n.iter) == f"{iv}._refs.portrefs.values()" and pat.find(f"$S.add({ast.unparse(n.target)})", n):
+                pr = True
+            if isinstance(n, ast.For) and ast.unparse(n.iter) == f"{iv}.conns.items()" and isinstance(n.target, ast.Tuple) and len(n.target.elts) == 2:
+                k, v = [ast.unparse(x) for x in n.target.elts]
+                for c, _b in pat.find(f"$S.add(_get_connref({iv}, {k}))", n):
+                    if cond_match(fe.node, c, f"isinstance({v}, NoConn)"):
+                        nc = True
     R.check(kinds == {"instances", "instarrays", "instbundles"} and pr and nc, rule, key_of(fe, "collect"), fe.site,
             f"port references are collected from {sorted(kinds)} (needs instances, arrays and instance bundles): every handed-out reference ({pr}) and every NoConn connection ({nc})",
             why="port references / no-connects on arrays or instance bundles are never resolved and reach the exporter")
-    grp = any(isinstance(n, ast.While) and ast.unparse(n.test) == "module_portrefs" for n in au.walk_no_nested(fe.node)) and bool(pat.find("follow(module_portrefs.pop(), group)", fe.node))
-    hg = any(isinstance(n, ast.For) and ast.unparse(n.iter) == "groups" and bool(pat.find("self.handle_group(module, group)", n)) for n in au.walk_no_nested(fe.node))
+    wl = [n for n in au.walk_no_nested(fe.node) if isinstance(n, ast.While) and isinstance(n.test, ast.Name)]
+    grp = bool(wl) and bool(pat.find(f"follow({ast.unparse(wl[0].test)}.pop(), $G)", wl[0]))
+    hg = False
+    for n in au.walk_no_nested(fe.node):
+        if isinstance(n, ast.For) and pat.find(f"self.handle_group(module, {ast.unparse(n.target)})", n) and enclosing(fe.node, n, (ast.If, ast.While, ast.For)) is None:
+            hg = True
     R.check(grp and hg, rule, key_of(fe, "groups"), fe.site, f"groups are formed until no reference is left ({grp}) and every group is handled ({hg})", why="some reference groups are never replaced by a signal")
     fh = repo.func(F_PORTREFS, "ResolvePortRefs.handle_group")
-    ok = any(isinstance(n, ast.If) and ast.unparse(n.test) == "any([isinstance(n, NoConn) for n in group])" and bool(pat.find("self.handle_noconn(module, group)", n)) for n in au.walk_no_nested(fh.node)) and bool(pat.find("self.handle_portconn(module, group)", fh.node))
+    nocs = pat.find("self.handle_noconn(module, group)", fh.node)
+    pcs = pat.find("self.handle_portconn(module, group)", fh.node)
+    tst = "any((isinstance($N, NoConn) for $N in group))"
+    ok = len(nocs) == 1 and len(pcs) == 1 and cond_match(fh.node, nocs[0][0], tst, True) and cond_match(fh.node, pcs[0][0], tst, False)
     R.check(ok, rule, key_of(fh), fh.site, f"a group containing a NoConn is handled as a no-connect, any other as a connection group: {ok}", why="a no-connected port is given a shared net (or vice versa)")
     fhp = repo.func(F_PORTREFS, "ResolvePortRefs.handle_portconn")
-    ok = bool(pat.find("source = self.find_source(group)", fhp.node)) and any(isinstance(n, ast.If) and ast.unparse(n.test) == "source is None" and bool(pat.find("source = self.create_source(module, group_port_refs)", n)) for n in au.walk_no_nested(fhp.node))
+    finds = pat.find("$S = self.find_source(group)", fhp.node)
+    ok = False
+    if len(finds) == 1:
+        sv = ast.unparse(finds[0][1]["S"])
+        creates = pat.find(f"{sv} = self.create_source(module, $G)", fhp.node)
+        ok = len(creates) == 1 and cond_match(fhp.node, creates[0][0], f"{sv} is None", True, use_prov=False) and pat.match("[$X for $X in group if isinstance($X, PortRef)]", prov(fhp.node, creates[0][1]["G"])) is not None
     R.check(ok, rule, key_of(fhp), fhp.site, f"an existing source is reused; a new one is created only when the group has none: {ok}", why="a group with an explicit signal gets a second, fresh net: the designer's signal is cut off")
     fcs = repo.func(F_PORTREFS, "ResolvePortRefs.create_source")
-    ok = bool(pat.find("ios = io_for_resolving(portref.inst.of)", fcs.node)) and bool(pat.find("port = ios.get(portref.portname, None)", fcs.node)) and bool(pat.find("sig = self.copy_port(port)", fcs.node)) and bool(pat.find("portref = self.which_portref_to_name(group)", fcs.node))
+    adds = pat.find("module.add($S)", fcs.node)
+    ok = False
+    if len(adds) == 1:
+        m = pat.match("self.copy_port(io_for_resolving($R.inst.of).get($R.portname))", prov(fcs.node, adds[0][1]["S"]))
+        ok = m is not None and ast.unparse(m["R"]) == f"self.which_portref_to_name({fcs.node.args.args[2].arg})"
     R.check(ok, rule, key_of(fcs), fcs.site, f"the implicit net copies the referenced port of the naming instance's target (its width / bundle type): {ok}", why="the implicit net has another port's width")
     fwn = repo.func(F_PORTREFS, "ResolvePortRefs.which_portref_to_name")
-    ok = bool(pat.find("sorted(group, key=lambda p: p.inst.name)", fwn.node)) and any(isinstance(n, ast.If) and ast.unparse(n.test) == "len(connected_to_none) > 1" and au.raises(n.body, noret) for n in au.walk_no_nested(fwn.node))
-    R.check(ok, rule, key_of(fwn), fwn.site, f"naming is deterministic (the unconnected port, else the alphabetically first instance); several unconnected ports fail: {ok}", why="net names depend on iteration order")
+    g = fwn.node.args.args[1].arg
+    srt = any(isinstance(c.func, ast.Name) and c.func.id == "sorted" and len(c.args) == 1 and ast.unparse(c.args[0]) == g and any(k.arg == "key" and isinstance(k.value, ast.Lambda) and len(k.value.args.args) == 1 and ast.unparse(k.value.body) == f"{k.value.args.args[0].arg}.inst.name" for k in c.keywords) for c in au.calls_in(fwn.node, nested=True))
+    many = any(isinstance(n, ast.If) and pat.match("1 < len($L)", prov(fwn.node, n.test)) is not None and au.raises(n.body, noret) for n in au.walk_no_nested(fwn.node))
+    R.check(srt and many, rule, key_of(fwn), fwn.site, f"naming is deterministic (the unconnected port, else the alphabetically first instance: {srt}); several unconnected ports fail: {many}", why="net names depend on iteration order")
     # (b) follow() distinguishes references from sources
     ff = repo.find_func(F_PORTREFS, "ResolvePortRefs.elaborate_module.<locals>.follow")
-    ok = ff is not None and any(isinstance(n, ast.If) and ast.unparse(n.test) == "isinstance(conn, PortRef)" and bool(pat.find("follow(conn, group)", ast.Module(n.body, []))) and bool(pat.find("group.add(conn)", ast.Module(n.orelse, []))) for n in au.walk_no_nested(ff.node))
+    ok = False
+    if ff is not None and len(ff.node.args.args) == 2:
+        pv, gv = [a.arg for a in ff.node.args.args]
+        rec = [c for c, b in pat.find(f"follow($C, {gv})", ff.node) if pat.match(f"{pv}.inst.conns.get({pv}.portname)", prov(ff.node, b["C"])) is not None]
+        src = [c for c, b in pat.find(f"{gv}.add($C)", ff.node) if pat.match(f"{pv}.inst.conns.get({pv}.portname)", prov(ff.node, b["C"])) is not None]
+        ok = len(rec) == 1 and len(src) == 1 and cond_match(ff.node, rec[0], "isinstance($C, PortRef)", True) and cond_match(ff.node, src[0], "isinstance($C, PortRef)", False)
     R.check(ok, rule, key_of(ff, "ref-vs-source") if ff else "follow", ff.site if ff else fe.site, f"a port's connection is followed when it is a reference and recorded as (candidate) source otherwise: {ok}", why="a reference is taken for a source (or a signal is followed as if it were a reference)")
     # (c) BundleRef path / root
     bp = repo.func(F_BUNDLE, "BundleRef.path")
-    ok = bool(pat.find("self.parent.path() + [self.attrname]", bp.node)) and any(isinstance(n, ast.If) and ast.unparse(n.test) == "isinstance(self.parent, BundleInstance)" and ast.unparse(n.body[-1]) == "return [self.attrname]" for n in au.walk_no_nested(bp.node))
+    rets = returns_of(bp.node)
+    base = [r for r in rets if ast.unparse(r.value) == "[self.attrname]" and cond_match(bp.node, r, "isinstance(self.parent, BundleInstance)", True)]
+    rec = [r for r in rets if ast.unparse(prov(bp.node, r.value)) == "self.parent.path() + [self.attrname]" and not cond_match(bp.node, r, "isinstance(self.parent, BundleInstance)", True)]
+    ok = len(base) == 1 and len(rec) == 1 and len(rets) == 2
     R.check(ok, rule, key_of(bp), bp.site, f"a nested bundle reference's path lists the outer member first: {ok}", why="b.sub.x resolves member `sub` of `x` (path reversed): wrong signal or failure")
     br = repo.func(F_BUNDLE, "BundleRef.root")
-    ok = bool(pat.find("self.parent.root()", br.node)) and any(isinstance(n, ast.If) and ast.unparse(n.test) == "isinstance(self.parent, BundleInstance)" and ast.unparse(n.body[-1]) == "return self.parent" for n in au.walk_no_nested(br.node))
+    rets = returns_of(br.node)
+    base = [r for r in rets if ast.unparse(r.value) == "self.parent" and cond_match(br.node, r, "isinstance(self.parent, BundleInstance)", True)]
+    rec = [r for r in rets if ast.unparse(prov(br.node, r.value)) == "self.parent.root()" and not cond_match(br.node, r, "isinstance(self.parent, BundleInstance)", True)]
+    ok = len(base) == 1 and len(rec) == 1 and len(rets) == 2
     R.check(ok, rule, key_of(br), br.site, f"a reference's root is the outermost bundle instance: {ok}", why="references resolve against another bundle instance")
     fb = repo.func(F_BUNDLE, "_bundle_ref")
-    ok = any(isinstance(n, ast.If) and ast.unparse(n.test) == "key in bundle_refs" and ast.unparse(n.body[-1]) == "return bundle_refs[key]" for n in au.walk_no_nested(fb.node)) and bool(pat.find("BundleRef(parent=self, attrname=key)", fb.node)) and bool(pat.find("bundle_refs[key] = bundle_ref", fb.node))
+    rets = returns_of(fb.node)
+    tbl = None
+    for r in rets:
+        m = pat.match("$T[key]", r.value)
+        if m is not None and cond_match(fb.node, r, f"key in {ast.unparse(m['T'])}", True, use_prov=False):
+            tbl = ast.unparse(m["T"])
+    ok = False
+    if tbl is not None:
+        st = pat.find(f"{tbl}[key] = $V", fb.node)
+        ok = len(st) == 1 and ast.unparse(prov(fb.node, st[0][1]["V"])) == "BundleRef(parent=self, attrname=key)" and not cond_match(fb.node, st[0][0], f"key in {tbl}", True, use_prov=False)
+        newrets = [r for r in rets if ast.unparse(prov(fb.node, r.value)) == "BundleRef(parent=self, attrname=key)"]
+        ok = ok and len(newrets) == 1 and isinstance(newrets[0].value, ast.Name)
     R.check(ok, rule, key_of(fb), fb.site, f"one BundleRef per (parent, member): reused when present, recorded when new: {ok}", why="two reference objects for one member: connections made through one are not resolved with the other")
     # (d) resolve_bundleref: root scope from the cache, path resolved in it, result recorded
     frb = repo.func(F_FLATB, "BundleFlattener.resolve_bundleref")
-    ok = bool(pat.find("path: List[str] = bref.path()", frb.node) or pat.find("path = bref.path()", frb.node)) and bool(pat.find("flat_root = THE_CACHE.bundle_insts.get(id(root), None)", frb.node)) and bool(pat.find("bref.resolved = resolved = self.resolve_path(flat_root, Path(path))", frb.node))
-    sig = any(isinstance(n, ast.If) and ast.unparse(n.test) == "isinstance(resolved, Signal)" and bool(pat.find("update_ref_deps(bref, resolved)", n)) for n in au.walk_no_nested(frb.node))
+    bv = frb.node.args.args[1].arg
+    rp = calls_matching(frb.node, f"self.resolve_path(THE_CACHE.bundle_insts.get(id({bv}.root())), Path({bv}.path()))")
+    rec = [x for x, b in pat.find(f"{bv}.resolved = $V", frb.node)] + [x for x in au.walk_no_nested(frb.node) if isinstance(x, ast.Assign) and len(x.targets) == 2 and f"{bv}.resolved" in [ast.unparse(t) for t in x.targets]]
+    ok = len(rp) == 1 and len(rec) == 1 and any(n is rp[0][0] for n in ast.walk(prov(frb.node, rec[0].value))) or (len(rp) == 1 and len(rec) == 1 and ast.unparse(prov(frb.node, rec[0].value)) == ast.unparse(prov(frb.node, rp[0][0])))
+    upd = pat.find(f"update_ref_deps({bv}, $V)", frb.node)
+    sig = len(upd) == 1 and cond_match(frb.node, upd[0][0], "isinstance($V, Signal)", True)
     R.check(ok and sig, rule, key_of(frb), frb.site, f"a bundle reference resolves its own path in the flattened scope of its own root ({ok}); a signal-valued result updates every dependant ({sig})", why="b.x resolves to another bundle's or another member's signal")
     frbs = repo.func(F_FLATB, "BundleFlattener.resolve_bundlerefs")
     calls = [ast.unparse(c) for c in au.calls_in(frbs.node) if isinstance(c.func, ast.Attribute) and c.func.attr.startswith("resolve_bundleref")]
-    R.check(calls == ["self.resolve_bundlerefs(bref)", "self.resolve_bundleref(bref)"], rule, key_of(frbs), frbs.site, f"references are resolved recursively, children first: {calls}", why="nested references stay unresolved")
+    lv = [ast.unparse(n.target) for n in au.walk_no_nested(frbs.node) if isinstance(n, ast.For)]
+    R.check(len(lv) == 1 and calls == [f"self.resolve_bundlerefs({lv[0]})", f"self.resolve_bundleref({lv[0]})"], rule, key_of(frbs), frbs.site, f"references are resolved recursively, children first: {calls}", why="nested references stay unresolved")
     frp = repo.func(F_FLATB, "BundleFlattener.resolve_path")
-    ok = any(isinstance(n, ast.For) and ast.unparse(n.iter) == "path.segs" for n in au.walk_no_nested(frp.node)) and bool(pat.find("ns = ns.signals[seg]", frp.node)) and bool(pat.find("ns = ns.scopes[seg]", frp.node)) and ast.unparse(frp.node.body[-1]) == "return ns"
+    loops = [n for n in au.walk_no_nested(frp.node) if isinstance(n, ast.For) and ast.unparse(n.iter) == "path.segs"]
+    ok = False
+    if len(loops) == 1:
+        sv = ast.unparse(loops[0].target)
+        s1 = pat.find(f"$NS = $NS.signals[{sv}]", loops[0])
+        s2 = pat.find(f"$NS = $NS.scopes[{sv}]", loops[0])
+        rets = returns_of(frp.node)
+        ok = len(s1) == 1 and len(s2) == 1 and ast.unparse(s1[0][1]["NS"]) == ast.unparse(s2[0][1]["NS"]) and any(ast.unparse(r.value) == ast.unparse(s1[0][1]["NS"]) for r in rets)
     R.check(ok, rule, key_of(frp), frp.site, f"paths are resolved segment by segment, each in the scope reached so far: {ok}", why="nested paths resolve in the wrong scope")
     # (e) replace_bundle_inst: cache before reconnecting (parents and references look the scope up)
     fri = repo.func(F_FLATB, "BundleFlattener.replace_bundle_inst")
-    st = pat.find("THE_CACHE.bundle_insts[id(bundle_inst)] = flat", fri.node)
+    st = pat.find("THE_CACHE.bundle_insts[id(bundle_inst)] = $F", fri.node)
     rc = pat.find("self.replace_bundle_conn(*$_)", fri.node)
     rr = pat.find("self.resolve_bundlerefs(bundle_inst)", fri.node)
-    ok = bool(st) and bool(rc) and bool(rr) and st[0][0].lineno < rc[0][0].lineno and st[0][0].lineno < rr[0][0].lineno
-    fl = bool(pat.find("flat = self.flatten_bundle_inst(bundle_inst, path=Path([]))", fri.node))
+    order = [id(x) for x in au.walk_no_nested(fri.node)]
+    ok = bool(st) and bool(rc) and bool(rr) and order.index(id(st[0][0])) < order.index(id(rc[0][0])) and order.index(id(st[0][0])) < order.index(id(rr[0][0]))
+    fl = bool(st) and ast.unparse(prov(fri.node, st[0][1]["F"])) == "self.flatten_bundle_inst(bundle_inst, path=Path([]))"
     R.check(ok and fl, rule, key_of(fri), fri.site, f"a bundle instance is flattened from its own definition ({fl}) and recorded in the cache before connections and references are rewritten ({ok})", why="references into the bundle find no (or a stale) flattened scope")
     # (f) anonymous bundles: members keep their own names; references are resolved first
     fab = repo.func(F_FLATB, "BundleFlattener.flatten_anonymous_bundle")
-    lp = [n for n in au.walk_no_nested(fab.node) if isinstance(n, ast.For) and ast.unparse(n.iter) == "anon._namespace.items()"]
-    ok = len(lp) == 1 and bool(pat.find("scope.signals[Path([name])] = attr", lp[0])) and bool(pat.find("attr = self.resolve_bundleref(attr)", lp[0])) and bool(pat.find("scope.add_subscope(name, flat_inst)", lp[0])) and bool(pat.find("scope.add_subscope(name, subscope)", lp[0]))
+    lp = [n for n in au.walk_no_nested(fab.node) if isinstance(n, ast.For) and ast.unparse(n.iter).endswith("._namespace.items()") and isinstance(n.target, ast.Tuple) and len(n.target.elts) == 2]
+    ok = False
+    if len(lp) == 1:
+        nm, at = [ast.unparse(x) for x in lp[0].target.elts]
+        sigs = pat.find(f"$S.signals[Path([{nm}])] = {at}", lp[0])
+        res = pat.find(f"{at} = self.resolve_bundleref({at})", lp[0])
+        subs = pat.find(f"$S.add_subscope({nm}, $X)", lp[0])
+        guard = [t for t, pol in path_conditions(fab.node, res[0][0]) if pol and isinstance(t, ast.Call) and au.isinstance_classes(t) is not None and ast.unparse(au.isinstance_classes(t)[0]) == at and "BundleRef" in {ast.unparse(c) for c in au.isinstance_classes(t)[1]}] if len(res) == 1 else []
+        ok = len(sigs) == 1 and len(res) == 1 and len(subs) >= 2 and bool(guard)
     R.check(ok, rule, key_of(fab), fab.site, f"every member of an anonymous bundle enters the scope under its own name; references are resolved first; nested bundles become sub-scopes: {ok}", why="members of an anonymous bundle are connected to the wrong flattened port")
     fem = repo.func(F_FLATB, "BundleFlattener.elaborate_module")
-    ok = any(isinstance(n, ast.For) and ast.unparse(n.iter) == "instances_and_arrays(module)" for n in au.walk_no_nested(fem.node)) and bool(pat.find("self.replace_anon_bundle_conn(inst=inst, portname=portname, anon=anon_bundle)", fem.node))
+    ok = False
+    for n in au.walk_no_nested(fem.node):
+        if isinstance(n, ast.For) and prov_text(fem.node, n.iter) == "instances_and_arrays(module)":
+            iv = ast.unparse(n.target)
+            for c, b in pat.find(f"self.replace_anon_bundle_conn(inst={iv}, portname=$P, anon=$A)", n):
+                ok = True
     fia = repo.func(F_FLATB, "instances_and_arrays")
-    ok2 = ast.unparse(fia.node.body[-1]) == "return list(module.instances.values()) + list(module.instarrays.values())"
+    rets = returns_of(fia.node)
+    ok2 = len(rets) == 1 and prov_text(fia.node, rets[0].value) == "list(module.instances.values()) + list(module.instarrays.values())"
     R.check(ok and ok2, rule, key_of(fem, "anon"), fem.site, f"anonymous-bundle connections of every instance and array are replaced: {ok and ok2}", why="anonymous bundles on arrays reach the array flattener")
     # (g) arrays: bundle broadcast, target
     fa = repo.func(F_ARRAYS, "ArrayFlattener.elaborate_module")
-    ok = bool(pat.find("target = self.elaborate_instance_base(array)", fa.node)) and bool(pat.find("inst = module.add(Instance(of=target, name=name))", fa.node)) and any(isinstance(n, ast.For) and ast.unparse(n.iter) == "range(array.n)" for n in au.walk_no_nested(fa.node))
-    bb = any(isinstance(n, ast.If) and ast.unparse(n.test) == "isinstance(conn, BundleInstance)" and any(isinstance(x, ast.For) and ast.unparse(x.iter) == "new_insts" and bool(pat.find("inst.connect(portname, conn)", x)) for x in n.body) for n in au.walk_no_nested(fa.node))
+    mk = calls_matching(fa.node, "module.add(Instance(of=self.elaborate_instance_base(array), name=$N))")
+    ok = len(mk) == 1 and any(isinstance(l, (ast.For, ast.ListComp)) and ast.unparse(l.iter if isinstance(l, ast.For) else l.generators[0].iter) == "range(array.n)" for l in enclosing_loops(fa.node, mk[0][0]))
+    bb = False
+    for c, b in pat.find("$I.connect(portname, conn)", fa.node):
+        if cond_match(fa.node, c, "isinstance(conn, BundleInstance)", True, use_prov=False) and any(isinstance(l, ast.For) and ast.unparse(l.target) == ast.unparse(b["I"]) for l in enclosing_loops(fa.node, c)):
+            bb = True
     R.check(ok and bb, rule, key_of(fa, "instances"), fa.site, f"array.n new instances of the array's own target ({ok}); a bundle connection is given to every one of them ({bb})", why="the array flattens into the wrong number of instances or another target")
     # (h) slice resolver reconnects resolved value to the same port
     fsr = repo.func(F_SLICES, "SliceResolver.elaborate_module")
-    ok = any(isinstance(n, ast.If) and ast.unparse(n.test) == "isinstance(conn, (Slice, Concat))" and bool(pat.find("resolved = _resolve_sliceable(conn)", n)) and bool(pat.find("inst.connect(portname, resolved)", n)) for n in au.walk_no_nested(fsr.node))
+    ok = False
+    for c, b in pat.find("$I.connect($P, $V)", fsr.node):
+        iv = ast.unparse(b["I"])
+        lp2 = [l for l in enclosing_loops(fsr.node, c) if isinstance(l, ast.For) and ast.unparse(l.iter) in (f"{iv}.conns.items()", f"list({iv}.conns.items())")]
+        if lp2 and isinstance(lp2[0].target, ast.Tuple) and len(lp2[0].target.elts) == 2:
+            k, v = [ast.unparse(x) for x in lp2[0].target.elts]
+            ok = ok or (ast.unparse(b["P"]) == k and prov_text(fsr.node, b["V"]) == f"_resolve_sliceable({v})" and cond_match(fsr.node, c, f"isinstance({v}, (Slice, Concat))", True, use_prov=False))
     R.check(ok, rule, key_of(fsr), fsr.site, f"each slice/concat connection is replaced by its own resolved form on the same port: {ok}", why="a resolved slice is connected to another port")
     frs = repo.func(F_SLICES, "_resolve_slice")
-    ok = bool(pat.find("ls = _list_slice(slize)", frs.node)) and bool(pat.find("Concat(*ls)", frs.node)) and any(isinstance(n, ast.If) and ast.unparse(n.test) == "len(ls) == 1" and ast.unparse(n.body[-1]) == "return ls[0]" for n in au.walk_no_nested(frs.node))
+    sl = frs.node.args.args[0].arg
+    rets = returns_of(frs.node)
+    one = [r for r in rets if prov_text(frs.node, r.value) == f"_list_slice({sl})[0]" and cond_match(frs.node, r, f"len(_list_slice({sl})) == 1", True)]
+    many = [r for r in rets if prov_text(frs.node, r.value) == f"Concat(*_list_slice({sl}))"]
+    ok = len(one) == 1 and len(many) == 1
     R.check(ok, rule, key_of(frs), frs.site, f"the peeled bits are re-assembled in order (one element as is, several as Concat(*ls)): {ok}", why="resolved bits are re-assembled in another order")
     R.floor(rule, 18)
